@@ -75,6 +75,16 @@ def final_assertions(ids, which, objs):
         b.head_of = o
         return ([p_, o, b], {(2, "head_of", 1), (0, "works_for", 1), (0, "member_of", 1), (1, "members", 2), (1, "members", 0)},
                 lambda: b.head_of is o and p_.works_for is o and any(x is o for x in p_.member_of) and any(x is b for x in o.members))
+    if which == "existing-human-becomes-boss-of-new-org":
+        live = [o_ for o_ in objs if isinstance(o_, W.Human)]
+        if not live:
+            return None
+        p_ = live[0]
+        b = W.create(ids, W.Boss, person=p_)  # the first new node: it takes the most recently freed slot of the graph
+        o = W.create(ids, W.Org, name=2)
+        b.head_of = o
+        return ([p_, o, b], {(2, "head_of", 1), (0, "works_for", 1), (0, "member_of", 1), (1, "members", 2), (1, "members", 0)},
+                lambda: b.head_of is o and p_.works_for is o and any(x is o for x in p_.member_of) and any(x is b for x in o.members))
     raise ValueError(which)
 
 
@@ -209,9 +219,11 @@ def cases(tier, seed):
         for f in firsts:
             nm = "prefix|first=%s|then %s" % ("+".join(":".join(map(str, o)) for o in f), which)
             cs.append(Case(nm + "|L=%d" % L, history_case(L, f, which), key=nm, reset=W.world_reset, validate=0, timeout=900 if tier == "quick" else 3000, max_paths=400000))
-    for f, which in [([("retarget",)], "existing-human-works-for-new-org"), ([("retarget-sub",)], "existing-org-sub-org-of-new-chain"), ([("pair",)], "existing-human-works-for-new-org"), ([("chain",)], "existing-org-sub-org-of-new-chain"), ([("role",)], "new-boss-heads-new-org"), ([("create", "Org")], "new-boss-heads-new-org")]:
-        nm = "prefix|first=%s|then %s" % (":".join(map(str, f[0])), which)
-        cs.append(Case(nm + "|L=%d" % L, history_case(L, f, which), key=nm, reset=W.world_reset, validate=0, timeout=900 if tier == "quick" else 3000, max_paths=400000))
+    for f, which in [([("retarget",)], "existing-human-works-for-new-org"), ([("retarget-sub",)], "existing-org-sub-org-of-new-chain"), ([("pair",)], "existing-human-works-for-new-org"), ([("chain",)], "existing-org-sub-org-of-new-chain"), ([("role",)], "new-boss-heads-new-org"), ([("create", "Org")], "new-boss-heads-new-org"),
+                     ([("create", "Human"), ("role",)], "existing-human-becomes-boss-of-new-org")]:
+        nm = "prefix|first=%s|then %s" % ("+".join(":".join(map(str, o_)) for o_ in f), which)
+        Lc = len(f) if f[-1][0] == "role" else L  # (the role prefixes are not extended by symbolic operations: they are costly)
+        cs.append(Case(nm + "|L=%d" % Lc, history_case(Lc, f, which), key=nm, reset=W.world_reset, validate=0, timeout=900 if tier == "quick" else 3000, max_paths=400000))
     return cs
 
 
